@@ -207,7 +207,10 @@ class Decl:
                 if p.get("form") == "ops":
                     e = None
                     for n, ex in p["items"]:
-                        f = V(n) if ex == 1 else OP("**", V(n), ["i", abs(ex)])
+                        # the bare class where the exponent is +-1 (class
+                        # op class, term op class), else class ** n (a term)
+                        f = V(n) if ex == 1 or (ex == -1 and p.get(
+                            "bare", True)) else OP("**", V(n), ["i", abs(ex)])
                         if e is None:
                             if ex > 0:
                                 e = f
@@ -307,6 +310,7 @@ def random_plan(rng, money=False, max_base=4, max_derived=4, max_units=4,
             d = Decl("derived", name=name, items=items,
                      ref=(L + "0") if rng.random() < 0.7 else None,
                      form=rng.choice(["ops", "term"]),
+                     bare=rng.random() < 0.6,
                      quantum=(rng.choice(QUANTA)
                               if quanta and rng.random() <
                               (0.5 if force_quantum else 0.12) else None))
